@@ -47,6 +47,8 @@ class Generated:
         self.binding_seqs = {}     # fn key -> names bound, in order (rule 27)
         self.constructs = {}       # fn key -> weak-specification constructs its text uses (vx/constructs.py)
         self.new_constructs = {}   # fn key -> those that the pinned text did not use
+        self.skeletons = {}        # fn key -> statement skeleton of the body (vx/constructs.py)
+        self.reshaped = set()      # fn keys whose skeleton is not the pinned one
         self.renamed = {}          # fn key -> {actual: pinned} alpha-renaming applied     # kept functions (verified with their bodies) that carry no contract      # contracted functions that no longer exist: (file, key, props)
     def text(self):
         return '\n'.join(self.lines) + '\n'
@@ -124,6 +126,12 @@ def generate(unit, repo_src=None, modes=None, probe=False):
                 try: cur_ = _cs.of_fn(f, fn_)
                 except Exception: continue
                 g.constructs[key_] = cur_
+                try:
+                    g.skeletons[key_] = _cs.skeleton(f, fn_)
+                    psk = _cs.load_skeletons().get(unit.name, {}).get(key_)
+                    if psk is not None and psk != g.skeletons[key_]: g.reshaped.add(key_)
+                except Exception:
+                    pass
                 if key_ in pinned_cs:
                     new_ = [x for x in cur_ if x not in pinned_cs[key_]]
                     if new_: g.new_constructs[key_] = new_
